@@ -144,6 +144,19 @@ def run(tier, seed, pid="C03"):
         if "grammar" in o:
             v.violation("wire/grammar", "a serialized proof does not follow the grammar of Wire.tla (%s)" % ctx, sc)
             continue
+        # the layout of the serialized proof against Stark.tla (Layout): component sizes in field elements / digests
+        if pid == "C03" and sc.get("layout") and o.get("spans"):
+            lay, sp, eb, db, u = sc["layout"], o["spans"], o["elem_bytes"], o["digest_bytes"], o["spans"].get("unique_queries", 0)
+            xb = eb * sc["ext"]
+            want = {"ood.trace": 1 + lay["ood_trace_elems"] * xb, "ood.lagrange": 1 + lay["ood_lag_elems"] * xb, "ood.evaluations": lay["ood_eval_elems"] * xb,
+                    "commitments": lay["commit_digests"] * db, "fri.remainder": lay["remainder_elems"] * xb, "fri.num_layers": lay["fri_layers"],
+                    "tq1.values": lay["tq1_elems"] * u * eb, "cq.values": lay["cq_elems"] * u * xb}
+            if "tq2.values" in sp:
+                want["tq2.values"] = lay["tq2_elems"] * u * xb
+            for k, w in want.items():
+                if sp.get(k) != w:
+                    v.violation("wire/layout/%s" % k, "component %s of a serialized proof has %s bytes (value %s), Stark.tla Layout gives %s (%s)" % (k, sp.get(k), sp.get(k), w, ctx),
+                                {"scenario": sc, "component": k})
         # which check rejects: the error class of every rejected structured mutant against the check order of Verifier.tla
         if pid == "C03":
             exp, _, _ = expected_classes(sc)
